@@ -22,6 +22,7 @@ EXPLANATION = (
     'comparison; sinks: the decoder and the cache store), provenance of the cache key (only backend-listed, tag-checked snapshot paths), guard dominance of '
     '"cache directory is not None" over every cache helper call, and the overwrite/idempotence constants of the three cache helpers. Rules C18.R1-R5.'
     ' Added with the seeded-defect rounds: the cache holds content-addressed snapshot objects only, reading commands cannot reach backend.delete.'
+    ' Round 6: the cache directory is used outside the three helpers only in None tests, the helpers keep no memory, no re-acquisition of a non-reentrant lock.'
 )
 NOT_DECIDED = 'equality of command results over histories of several clients sharing or not sharing a cache (needs execution)'
 TRUSTED = ['hash collision resistance', 'CPython ast']
